@@ -227,7 +227,7 @@ def build_case(n):
 
 
 def plan(tier, seed):
-    n = {"quick": 500, "thorough": 40000}[tier]
+    n = {"quick": 300, "thorough": 40000}[tier]
     ntasks = {"quick": 8, "thorough": 16}[tier]
     return [{"task": "gen", "constraints": n} for _ in range(ntasks)]
 
